@@ -146,6 +146,21 @@ func c13File(spec string) string {
 		write(b, 0o755)
 	case "noexec":
 		write(newRng(99).bytes(4096), 0o644)
+	case "big":
+		// big:<n>:<seed>: n bytes, all zero (a sparse file) except the last 64, which depend on the seed
+		n, _ := strconv.ParseInt(parts[1], 10, 64)
+		seed, _ := strconv.ParseUint(parts[2], 10, 64)
+		fh, err := os.OpenFile(p, os.O_CREATE|os.O_TRUNC|os.O_WRONLY, 0o644)
+		if err != nil {
+			panic(err)
+		}
+		if err := fh.Truncate(n); err != nil {
+			panic(err)
+		}
+		if _, err := fh.WriteAt(newRng(seed).bytes(64), n-64); err != nil {
+			panic(err)
+		}
+		fh.Close()
 	default:
 		panic("bad file spec " + spec)
 	}
@@ -424,6 +439,11 @@ func c13GenChecks(r *rng) []*c13Check {
 			}
 		}
 	}
+	// two files of 64 MiB + 64 bytes that differ only in their last 64 bytes: every byte counts, whatever the size
+	bigA, bigB := fmt.Sprintf("big:%d:1", 64<<20+64), fmt.Sprintf("big:%d:2", 64<<20+64)
+	cs = append(cs, &c13Check{hash: "sha256", file: bigA, sum: c13FH("sha256", bigA, false), cls: "big-exact"},
+		&c13Check{hash: "sha256", file: bigA, sum: c13FH("sha256", bigB, false), cls: "otherfile"},
+		&c13Check{hash: "sha256", file: bigB, sum: c13FH("sha256", bigA, false), cls: "otherfile"})
 	return cs
 }
 
